@@ -71,6 +71,10 @@ def case_s(draw) -> dict[str, Any]:
         # the same tester script against different ECUs: identical requests with different answers in one database
         for r in runs[1:]:
             r["ops"] = runs[0]["ops"]
+    if n > 1 and draw(st.integers(0, 3)) == 0:
+        # ECUs behind one CAN interface: their target URIs differ in nothing but a query parameter (ISO-TP extended addressing)
+        for i, r in enumerate(runs):
+            r["url"] = f"isotp://vcan0?src_addr=0x6f1&dst_addr=0x654&is_extended=false&ext_address={i + 1:#x}&rx_ext_address={0x10 + i:#x}"
     target = draw(st.integers(0, n - 1))
     select = draw(st.sampled_from(["name", "props", "name+props"])) if n > 1 else draw(st.sampled_from(["name", "props", "name+props", "none"]))
     if n > 1 and draw(st.integers(0, 2)) == 0:
